@@ -303,6 +303,9 @@ pub fn ub_probe_traces(world: &World) -> Vec<Trace> {
         ];
         for (k, records) in [h1, h2].into_iter().enumerate() {
             for io in [false, true] {
+                if io && k == 1 {
+                    continue; // the IoReader path is exercised on the first history only
+                }
                 let input = if io {
                     InputMode { rl: RlMode::None, native_read_byte: false, io: Some(IoPlan { chunks: vec![3, 1, 5], eintr_mask: 0b1001_0010 }) }
                 } else {
